@@ -133,7 +133,10 @@ func resolveRenames(roots []*packages.Package, inv map[string]string) map[string
 				for _, m := range ms {
 					best, second, bestA := -1.0, -1.0, ""
 					for _, a := range as {
-						sc := nameSimilarity(m[strings.LastIndex(m, ".")+1:], a[strings.LastIndex(a, ".")+1:])
+						mn, an := m[strings.LastIndex(m, ".")+1:], a[strings.LastIndex(a, ".")+1:]
+						// letters in common, and (as a tie-break between siblings like …Local / …Remote whose words
+						// were only reordered) the words in common
+						sc := nameSimilarity(mn, an) + 0.5*wordSimilarity(mn, an)
 						if sc > best {
 							best, second, bestA = sc, best, a
 						} else if sc > second {
@@ -178,6 +181,47 @@ func nameSimilarity(a, b string) float64 {
 		prev = cur
 	}
 	return 2 * float64(prev[len(b)]) / float64(len(a)+len(b))
+}
+
+// camelWords splits an identifier into its lower-cased words.
+func camelWords(s string) []string {
+	var out []string
+	cur := ""
+	for i, c := range s {
+		if i > 0 && c >= 'A' && c <= 'Z' && cur != "" {
+			out = append(out, strings.ToLower(cur))
+			cur = ""
+		}
+		cur += string(c)
+	}
+	if cur != "" {
+		out = append(out, strings.ToLower(cur))
+	}
+	return out
+}
+
+// wordSimilarity: the share of words the two identifiers have in common (a word matches itself and its plural), in [0,1].
+func wordSimilarity(a, b string) float64 {
+	wa, wb := camelWords(a), camelWords(b)
+	if len(wa) == 0 || len(wb) == 0 {
+		return 0
+	}
+	used := make([]bool, len(wb))
+	n := 0
+	for _, x := range wa {
+		for j, y := range wb {
+			if !used[j] && (x == y || x+"s" == y || y+"s" == x) {
+				used[j] = true
+				n++
+				break
+			}
+		}
+	}
+	d := len(wa)
+	if len(wb) > d {
+		d = len(wb)
+	}
+	return float64(n) / float64(d)
 }
 
 // pkgOfKey: the package path of an inventory key (pkg.F or pkg.T.M; package paths contain no dot after the last slash... they may: split by known prefixes).
